@@ -55,6 +55,13 @@ def _eigendecomposition(A, rank=DEFAULT_RANK):
         )
         logger.warning(message)
     p = count_nonzero(s > 0)  # stability
+    if p == 0:
+        message = (
+            "The covariance matrix has no positive eigenvalue, so no eigenvector "
+            "can be retained. Consider raising the jitter or the length scale."
+        )
+        logger.error(message)
+        raise ValueError(message)
     summed = cumsum(s[: -p - 1 : -1])
     if isinstance(rank, float):
         # automatically choose rank to capture some percent of the eigenvalues
